@@ -551,6 +551,25 @@ func checkExchange(fail func(string, string, ...any), stats map[string]int, log 
 		if r.Error == "" || (r.Code >= 200 && r.Code < 400) {
 			fail("C06.failed-exchange", "exchange %d failed (transport error, redirect limit or body read error) but the result has error=%q code=%d", i, r.Error, r.Code)
 		}
+		// what a failed exchange still says must be true: bytes-in is the length of what was captured, and when the
+		// body of the final response broke off after k bytes the capture is those bytes (cut at max-body) and the
+		// request body had been sent in full
+		if r.BytesIn != uint64(len(r.Body)) {
+			fail("C06.bytes-in", "exchange %d (failed: %s): bytes_in %d, captured length %d", i, r.Error, r.BytesIn, len(r.Body))
+		}
+		if final >= 0 && x.hops[final].bodyErr >= 0 && final < len(x.bodies) {
+			h := &x.hops[final]
+			want := h.body[:h.bodyErr]
+			if maxBody >= 0 && int64(len(want)) > maxBody {
+				want = want[:maxBody]
+			}
+			if !bytes.Equal(r.Body, want) {
+				fail("C06.body", "exchange %d: the body broke off after %d of %d bytes (max-body %d): captured %d bytes, want %d", i, h.bodyErr, len(h.body), maxBody, len(r.Body), len(want))
+			}
+			if r.BytesOut != uint64(len(x.target.Body)) {
+				fail("C06.bytes-out", "exchange %d: the response arrived (its body broke off later), so the request body of %d bytes had been sent, yet bytes_out is %d", i, len(x.target.Body), r.BytesOut)
+			}
+		}
 		return
 	}
 	if final < 0 {
